@@ -316,6 +316,40 @@ pub fn protos_wide(ctx: &Ctx) {
     ctx.observe_u64((kind * 100_000 + k * 2 + n) as u64);
 }
 
+/// (vi) strings that XML cannot carry (NUL, C0 controls, U+FFFE, U+FFFF) and carriage returns in
+/// every string field: some call up to finalize must refuse them, or the file must read back
+/// with exactly the strings that were handed in
+pub fn strings(ctx: &Ctx) {
+    const BAD: [&str; 12] = ["a\u{0}b", "\u{1}", "x\u{b}y", "\u{c}", "tail\u{1f}", "\u{fffe}", "q\u{ffff}", "a\rb", "\r", "line\r\nline", "\r\r\n", "ok \u{7f} \u{85} \u{2028}"];
+    let bi = ctx.pick("string", BAD.len());
+    let field = ctx.pick("field-rotation", 40);
+    let img = ctx.pick("image-kind", 2) * 3;
+    // the bad string lands in field number `field` (the list is rotated), harmless ones elsewhere
+    let mut strings: Vec<String> = (0..40).map(|i| format!("s{i}")).collect();
+    strings[0] = BAD[bi].to_string();
+    let p = crate::c04::build_with(&strings, (40 - field) % 40, img);
+    ctx.describe(|| format!("string {:?} in string field {field}: {}", BAD[bi], describe(&p)));
+    let dev = Dev::empty();
+    let h = dev.handle();
+    let run = run_program(dev, &p, &ExecOpts::default());
+    ctx.ops(run.api_calls);
+    if let Some((i, pi)) = &run.panic {
+        ctx.violation(format!("{P}/panic/{}", pi.class()), format!("writer panicked at {} ({}) during op #{i}", pi.loc, pi.msg));
+        return;
+    }
+    match &run.err {
+        Some((_, call, _)) => ctx.count(format!("unstorable-string:rejected-by:{call}")),
+        None => {
+            let w = Written { bytes: h.snapshot(), run };
+            if read_and_compare(ctx, &p, &w, P, None).is_some() {
+                ctx.count("unstorable-string:stored-faithfully");
+                ctx.nontrivial();
+            }
+        }
+    }
+    ctx.observe_u64((bi * 100 + field) as u64);
+}
+
 // ------------------------------------------------------------------------------------------
 // values
 
@@ -613,7 +647,7 @@ const SESS_NAMES: [&str; N_SESS] = [
     "cloud(abandoned,3pts,cap1)",
     "cloud(finalize twice)",
     "cloud(add_point after finalize)",
-    "image(visual)",
+    "image(visual, finalize twice)",
     "image(no representation)",
     "image(abandoned after pinhole)",
     "image(pinhole twice)",
@@ -665,13 +699,9 @@ fn session(
                     add_pts(&mut pw, &pts)?;
                     pw.finalize().map_err(|e| es("pc.finalize", e))?;
                     exp.clouds.push(cl.clone());
-                    // a second finalize must either fail or leave a readable file that lists
-                    // what it claims; the reference accepts "Err" or "a second identical cloud"
+                    // a second finalize must be refused: it would list the same cloud twice
                     if pw.finalize().is_ok() {
-                        let mut c2 = cl;
-                        c2.points = Vec::new();
-                        c2.records = 3;
-                        exp.clouds.push(m::Cloud { points: pts.clone(), ..c2 });
+                        problems.push(format!("PointCloudWriter::finalize returned Ok a second time for {}", exp.clouds.last().and_then(|c| c.meta.guid.clone()).unwrap_or_default()));
                     }
                 }
                 _ => {
@@ -680,9 +710,14 @@ fn session(
                     let mut c = cl;
                     c.points.truncate(2);
                     c.records = 2;
-                    // adding after finalize is misuse the statement does not classify: only
-                    // "no panic" and "the finalized cloud still reads back" are judged
-                    let _ = pw.add_point(pts[2].iter().map(val_to_e57).collect());
+                    // a point added after finalize cannot be stored (the section is closed and
+                    // listed): the call must be refused, and so must a further finalize
+                    if pw.add_point(pts[2].iter().map(val_to_e57).collect()).is_ok() {
+                        problems.push("add_point returned Ok after PointCloudWriter::finalize".into());
+                    }
+                    if pw.finalize().is_ok() {
+                        problems.push("PointCloudWriter::finalize returned Ok again after a refused add_point".into());
+                    }
                     exp.clouds.push(c);
                 }
             }
@@ -750,6 +785,10 @@ fn session(
                         put(&mut iw, p).map_err(|e| es("add projection", e))?;
                     }
                     iw.finalize().map_err(|e| es("image.finalize", e))?;
+                    // a second finalize must be refused: it would list the same image twice
+                    if k == 5 && iw.finalize().is_ok() {
+                        problems.push("ImageWriter::finalize returned Ok a second time".into());
+                    }
                     img.name = None;
                     exp.images.push(img);
                 }
